@@ -43,5 +43,17 @@ SPEC = Spec(
         "num_consumers >= 1 (Config.Validate)",
         "MergeSplit conserves items (property C04): the model allows any re-partition that is a permutation",
         "worker pool of the default batcher has at least one slot (termination theorem); a stopped retry sender schedules no retry",
+        "SCOPE: the theorems and the clause 'all export calls have returned' are about exporters with a sending queue and/or a batcher. "
+        "Queue-less exporters (Send runs the export on the caller's goroutine; Shutdown only stops the retry sender and does not wait "
+        "for callers) are outside the LTS: for them only 'no export call begins after Shutdown returned' is MONITORED (open calls are "
+        "the callers' own, no late sends generated, the same-instant tie of a back-off timer with Shutdown excluded)",
+        "the replay through `fire` (prop refine) is a heuristic consistency check: hidden steps are inferred with look-ahead into the "
+        "trace and placed as late as possible; C03_replay_reachable says the inferred schedule is a run of the LTS, NOT that its "
+        "observable projection equals the recorded trace (not proved)",
+        "persistent-queue keeping is item-level in the LTS (under-approximation); the request-level rule 'kept iff some part ended "
+        "with a shutdown error' is carried by the monitor clauses checkInterrupted (sound: C03_check_interrupted_sound), not by a "
+        "theorem about the LTS; these clauses have no bridging theorem",
+        "partial failures (Request.OnError narrowing) are generated and monitored; in the LTS a flight keeps its batch and only "
+        "counts attempts (the narrowed retry is an attempt of the same flight)",
     ],
 )
